@@ -11,7 +11,7 @@ from .fm import *
 
 E = 10
 HINT = {'pa': 10 ** 6, 'pb': 5 * 10 ** 5, 'F': 8 * 10 ** 5, 'C': 10 ** 5, 'F2': 10 ** 6, 'C2': 0, 'X_lp1': 3, 'X_usd': 0, 'X_om': 0, 'wa': 10 ** 6, 'T': 10 ** 7,
-        'amount': 10 ** 5, 'rate': 10 ** 5, 'exp_b': 5 * DAY, 'rate3': 10 ** 3, 'C3': 10 ** 3}
+        'amount': 10 ** 5, 'rate': 10 ** 5, 'exp_b': 5 * DAY, 'rate3': 10 ** 3, 'C3': 10 ** 3, 'pb2': 10 ** 5, 'wb': 10 ** 5}
 DENOMS = (LP1, 'uusd', 'uom')
 
 
@@ -40,6 +40,9 @@ def world(I):
     put_position(I, position('u-a', LP1, pa, 30 * DAY, 'alice', None))
     closed_kind = I.choose(2, 'bob_position')
     put_position(I, position('u-b', LP1, pb, DAY, 'bob', 5 * DAY if closed_kind == 0 else 200 * DAY))     # unlocked / still locked
+    # bob also keeps an OPEN position (and therefore weight) next to the closed one
+    pb2 = I.sym('pb2', lo=1, hi=U128 // 64)
+    put_position(I, position('u-b2', LP1, pb2, DAY, 'bob', None))
     rate = I.sym('rate', lo=1, hi=U128 // 64)
     F = simp(rate * 8)
     C = I.sym('C', hi=U128)
@@ -56,7 +59,9 @@ def world(I):
     put_farm(I, farm('f-3', 'fowner', LP1, 'uom', simp(rate3 * 8), C3, rate3, 4, 12))
     wa = I.sym('wa', lo=1, hi=U128 // 64)
     T = I.sym('T', lo=1, hi=U128 // 32)
-    I.assume(T >= wa)
+    wb = I.sym('wb', lo=1, hi=U128 // 64)
+    I.assume(T >= wa + wb)
+    put_weight(I, 'bob', LP1, 3, wb)
     put_weight(I, 'alice', LP1, 3, wa)
     put_weight(I, FM, LP1, 3, T)
     X = {}
@@ -127,7 +132,7 @@ def _ob(op):
         I.observe('status', 'ok' if st == 'ok' else 'err')
         for d in DENOMS:
             I.observe('bal:farm_manager:' + d, b.get(FM, d))
-        for pid in ('u-a', 'u-b', 'p-8'):
+        for pid in ('u-a', 'u-b', 'u-b2', 'p-8'):
             observe_position(I, pid)
         for fid in ('f-1', 'f-2', 'f-3', 'f-4'):
             observe_farm(I, fid)
@@ -148,12 +153,12 @@ def _build(op):
         ch = m['_choices']
         rate = m['rate']
         exp_b = 5 * DAY if ch.get('bob_position', 0) == 0 else 200 * DAY
-        pos = [('u-a', LP1, m['pa'], 30 * DAY, 'alice', None), ('u-b', LP1, m['pb'], DAY, 'bob', exp_b)]
+        pos = [('u-a', LP1, m['pa'], 30 * DAY, 'alice', None), ('u-b', LP1, m['pb'], DAY, 'bob', exp_b), ('u-b2', LP1, m['pb2'], DAY, 'bob', None)]
         farms = [('f-1', 'fowner', LP1, 'uusd', rate * 8, m['C'], rate, 4, 12), ('f-2', 'fowner2', LP2, LP1, m['F2'], m['C2'], 1, 4, 12),
                  ('f-3', 'fowner', LP1, 'uom', m['rate3'] * 8, m['C3'], m['rate3'], 4, 12)]
-        liab = {LP1: m['pa'] + m['pb'] + m['F2'] - m['C2'], 'uusd': rate * 8 - m['C'], 'uom': m['rate3'] * 8 - m['C3']}
+        liab = {LP1: m['pa'] + m['pb'] + m['pb2'] + m['F2'] - m['C2'], 'uusd': rate * 8 - m['C'], 'uom': m['rate3'] * 8 - m['C3']}
         mints = [('farm_manager', [(LP1, liab[LP1] + m['X_lp1']), ('uusd', liab['uusd'] + m['X_usd']), ('uom', liab['uom'] + m['X_om'])])]
-        d = {'now_s': E * DAY + 5, 'positions': pos, 'farms': farms, 'weights': [('alice', LP1, 3, m['wa']), ('farm_manager', LP1, 3, m['T'])],
+        d = {'now_s': E * DAY + 5, 'positions': pos, 'farms': farms, 'weights': [('alice', LP1, 3, m['wa']), ('bob', LP1, 3, m['wb']), ('farm_manager', LP1, 3, m['T'])],
              'counters': {'position': 7, 'farm': 3}, 'mints': mints, 'last_claimed': [],
              'config': {'create_farm_fee': {'denom': 'uom', 'amount': '1000'}, 'max_concurrent_farms': 3}}
         a = m.get('amount', 1)
